@@ -17,6 +17,7 @@ import subprocess
 import sys
 
 ROOT = os.path.dirname(os.path.dirname(os.path.abspath(__file__)))
+REPO = os.environ.get("VERIF_REPO", "/repo")      # a snapshot of the repository when run through `vp run --with-repo`
 WT = "/tmp/sv-worktree"
 TARGET = "/tmp/sv-target"
 
@@ -47,7 +48,7 @@ def main():
     ran = []
     result = {"confirmed": False}
 
-    rc, out = sh("git -C /repo status --porcelain")
+    rc, out = sh("git -C %s status --porcelain" % REPO)
     if out.strip():
         print("refusing: /repo has uncommitted changes:\n" + out)
         return 2
@@ -101,7 +102,7 @@ def main():
 def run_checks(meta, pid, checks, tier, patch, demo, src, name, result, ran):
     detections = {}
     if result["confirmed"]:
-        rc, out = sh("git -C /repo apply %s" % patch)
+        rc, out = sh("git -C %s apply %s" % (REPO, patch))
         try:
             if rc != 0:
                 print("cannot apply to /repo: " + out)
@@ -122,7 +123,7 @@ def run_checks(meta, pid, checks, tier, patch, demo, src, name, result, ran):
                     ran.append("(change applied to /repo) " + c + " -> exit %d %s" % (rcc, viol[0] if viol else ""))
                     print(chk, "exit", rcc, viol[0] if viol else "", "|", why)
         finally:
-            sh("git -C /repo checkout -- . && git -C /repo clean -fdq tests")
+            sh("git -C %s checkout -- . && git -C %s clean -fdq tests" % (REPO, REPO))
         ran.append("git -C /repo checkout -- .")
     dst = os.path.join(ROOT, "seeded", name)
     os.makedirs(dst, exist_ok=True)
